@@ -86,7 +86,7 @@ def run(tier):
         stmts = list(corpus[d])
         rnd.shuffle(stmts)
         if tier == 'quick':
-            stmts = stmts[:70]
+            stmts = stmts[:40]
         res, _ = SW.sweep_space3(d, stmts)
         run.add_stats({'paths': res['paths'], 'solver_calls': res['solver_calls'], 'solver_s': res['solver_s']})
         handle(run, 'U3U4:space-iii:%s:%d-statements' % (d, len(stmts)), res)
